@@ -1,0 +1,179 @@
+//! Verification hooks. Only compiled with the cargo feature `verif_hooks`.
+//!
+//! These hooks let an external harness
+//! - observe (and pause at) the points between two atomic segments of the locking protocol,
+//! - replace thread parking in `blocking_lock` with a scheduler-aware wait,
+//! - take a consistent snapshot of the internal state, and
+//! - supply a deterministic clock to the LRU cache.
+//!
+//! With the feature off, none of this exists and the crate is unchanged.
+
+use std::cell::Cell;
+use std::future::Future;
+use std::hash::{Hash, Hasher};
+use std::sync::OnceLock;
+use std::task::{Context, Poll, Waker};
+
+/// A point in the library's code that the harness is told about.
+#[derive(Debug, Clone, Copy, PartialEq, Eq, Hash)]
+pub enum Site {
+    /// About to acquire the global `entries` lock (only reported when the thread doesn't hold it already).
+    Entries,
+    /// About to acquire the global `entries` lock although this thread already holds it (self-deadlock).
+    EntriesReentrant,
+    /// About to call `try_lock_owned` on a per-key mutex outside the global lock. Payload: address of the mutex.
+    KeyTry(usize),
+    /// About to start waiting for a per-key mutex. Payload: address of the mutex.
+    KeyWait(usize),
+    /// About to invoke the user's eviction callback. Payload: `true` iff this thread holds the global lock (must be false).
+    BeforeCallback(bool),
+    /// A `Guard` object was created. Payload: hash of the key.
+    GuardCreated(u64),
+    /// `_unlock` was entered for a key (on_unlock not yet run). Payload: hash of the key.
+    UnlockBegin(u64),
+    /// A pending wait for a per-key mutex is being abandoned (future dropped). Payload: hash of the key.
+    CancelBegin(u64),
+}
+
+/// What the harness has to implement.
+pub trait Handler: Send + Sync {
+    /// Called on the acting thread whenever it reaches `site`.
+    fn at(&self, site: Site);
+    /// A waker for the calling agent, used by [block_on].
+    fn make_waker(&self) -> Waker;
+    /// Called by [block_on] after the future returned `Pending`. Must return only once the waker
+    /// fired and the agent has been scheduled again.
+    fn blocked(&self);
+}
+
+static HANDLER: OnceLock<Box<dyn Handler>> = OnceLock::new();
+
+thread_local! {
+    static GLOCK_DEPTH: Cell<usize> = const { Cell::new(0) };
+}
+
+/// Install the handler. Can only be done once per process.
+pub fn set_handler(handler: Box<dyn Handler>) -> bool {
+    HANDLER.set(handler).is_ok()
+}
+
+/// Number of `entries` guards the current thread holds.
+pub fn glock_depth() -> usize {
+    GLOCK_DEPTH.with(|d| d.get())
+}
+
+/// Report that the current thread reached `site`.
+#[inline]
+pub fn at(site: Site) {
+    if let Some(h) = HANDLER.get() {
+        h.at(site);
+    }
+}
+
+/// Scheduling point before acquiring the global lock.
+#[inline]
+pub fn before_entries() {
+    if glock_depth() == 0 {
+        at(Site::Entries);
+    } else {
+        at(Site::EntriesReentrant);
+    }
+}
+
+/// Scheduling point before a `try_lock_owned` on a per-key mutex outside the global lock.
+#[inline]
+pub fn before_key_try<T>(mutex: &T) {
+    if glock_depth() == 0 {
+        at(Site::KeyTry(mutex as *const T as usize));
+    }
+}
+
+/// Scheduling point before starting to wait for a per-key mutex.
+#[inline]
+pub fn before_key_wait<T>(mutex: &T) {
+    if glock_depth() == 0 {
+        at(Site::KeyWait(mutex as *const T as usize));
+    }
+}
+
+/// Reported right before the eviction callback is invoked.
+#[inline]
+pub fn before_callback() {
+    at(Site::BeforeCallback(glock_depth() != 0));
+}
+
+/// Deterministic hash of a key, to let the harness attribute events to keys without new trait bounds.
+pub fn key_hash<K: Hash>(key: &K) -> u64 {
+    #[allow(deprecated)]
+    let mut hasher = std::hash::SipHasher::new();
+    key.hash(&mut hasher);
+    hasher.finish()
+}
+
+/// RAII token for "this thread holds the global lock".
+pub struct GlockDepth(());
+
+impl GlockDepth {
+    /// The global lock was just acquired.
+    #[inline]
+    pub fn enter() -> Self {
+        GLOCK_DEPTH.with(|d| d.set(d.get() + 1));
+        Self(())
+    }
+}
+
+impl Drop for GlockDepth {
+    #[inline]
+    fn drop(&mut self) {
+        GLOCK_DEPTH.with(|d| d.set(d.get().saturating_sub(1)));
+    }
+}
+
+/// Scheduler-aware replacement for thread parking: poll `fut` on the current thread,
+/// telling the handler whenever it is pending.
+pub fn block_on<F: Future>(fut: F) -> F::Output {
+    let mut fut = std::pin::pin!(fut);
+    match HANDLER.get() {
+        Some(h) => {
+            let waker = h.make_waker();
+            let mut cx = Context::from_waker(&waker);
+            loop {
+                match fut.as_mut().poll(&mut cx) {
+                    Poll::Ready(v) => return v,
+                    Poll::Pending => h.blocked(),
+                }
+            }
+        }
+        None => futures::executor::block_on(fut),
+    }
+}
+
+/// One entry of the internal map as seen by [crate::LockableHashMap::verif_snapshot] and friends.
+#[derive(Debug, Clone)]
+pub struct SnapEntry<K, V> {
+    /// The key.
+    pub key: K,
+    /// Whether the per-key mutex could not be locked (held, or handed to a waiter).
+    pub locked: bool,
+    /// The value (`None` if the entry is locked or has no value).
+    pub value: Option<V>,
+    /// Whether the entry has a value (`None` if the entry is locked, so this cannot be seen).
+    pub has_value: Option<bool>,
+    /// The `last_unlocked` time stamp (LRU cache only, unlocked valued entries only).
+    pub stamp: Option<tokio::time::Instant>,
+    /// `num_replicas()` of the entry.
+    pub num_replicas: usize,
+    /// Address of the per-key mutex.
+    pub addr: usize,
+}
+
+/// Snapshot of a container, entries in iteration order.
+#[derive(Debug, Clone)]
+pub struct Snapshot<K, V> {
+    /// Whether the global lock was poisoned.
+    pub poisoned: bool,
+    /// Whether the global lock could not be taken at all (somebody holds it).
+    pub glock_held: bool,
+    /// The entries.
+    pub entries: Vec<SnapEntry<K, V>>,
+}
